@@ -238,6 +238,33 @@ func c07(r *core.Run) {
 				}
 			}
 			r.Check(okU, "C07/R4", h.Key()+":usage-carried-over", p.InstrPos(planCall), "new SpaceUsed ⊵ loaded SpaceUsed only (0 when no plan)", fmt.Sprintf("the new plan's usage is not the loaded plan's usage: %v", up))
+			// the plan loaded is the plan written: lookup key and stored Address are the same term
+			var getter *ssa.Call
+			allInstrs(h.Fn, func(in ssa.Instruction) {
+				if c, ok := in.(*ssa.Call); ok {
+					for _, cal := range p.Callees(c) {
+						if gi := p.StoreGetter(cal); gi != nil && gi.Module+"/"+gi.Prefix == stPay {
+							getter = c
+						}
+					}
+				}
+			})
+			if getter == nil {
+				r.Violation("C07/R4", h.Key()+":plan-lookup", p.Pos(h.Fn.Pos()), "buying storage never loads the existing plan")
+			} else if al := recordAlloc(rec); al != nil {
+				var addr ssa.Value
+				for _, st := range fieldStores(al, "Address") {
+					addr = st.Val
+				}
+				tb := core.NewTermBuilder(p)
+				ga := dataArgs(getter)
+				okKey := addr != nil && len(ga) == 1 && tb.Term(ga[0]) == tb.Term(addr)
+				detail := ""
+				if addr != nil && len(ga) == 1 {
+					detail = "loaded " + tb.Term(ga[0]) + " vs written " + tb.Term(addr)
+				}
+				r.Check(okKey, "C07/R4", h.Key()+":loaded-plan=written-plan", p.InstrPos(getter), "the plan whose usage is carried over is the plan being replaced (same key term)", "the usage carried into the new plan is read from a different account's plan than the one written: "+detail)
+			}
 			// when found: commit paths pass SpaceUsed <= Bytes
 			notFound := p.PassEdges(h.Fn, foundGuard(p, stPay, false))
 			fits := p.PassEdges(h.Fn, cmpGuard(p, onlyStoreField(stPay, ".SpaceUsed"), msgField(p, h, "Bytes"), "<=", "<"))
